@@ -174,10 +174,10 @@ def builtin_cases(draw, tier):
     n = D.weighted(draw, [(1, st.just(2 * msl)), (6, st.integers(2 * msl, max(2 * msl, 24))),
                           (3, st.integers(2 * msl, nmax))])
     exact = draw(st.booleans()) if cost != "GaussianCovCost" else draw(st.sampled_from([False, False, True]))
-    X, meta = draw(D.structured_matrix(n, p, exact=exact, boundary_positions=(msl, n - msl),
-                                       max_spikes=2, max_bumps=2))
     scale = draw(st.one_of(st.sampled_from([0.3, 1.0, 0.0, 0.05, 2.0]), st.floats(0.0, 3.0)))
     unit = draw(st.sampled_from([1.0, 1.0, 0.1, 0.01, 10.0]))  # Gaussian costs are negative for small units
+    X, meta = draw(D.structured_matrix(n, p, exact=exact, boundary_positions=(msl, n - msl),
+                                       max_spikes=2, max_bumps=2))  # bulk data last (see strategies/data.py)
     if unit != 1.0:
         X = [[v * unit for v in row] for row in X]
     return {"cost": cost, "msl": msl, "X": X, "penalty_scale": scale}
